@@ -23,7 +23,10 @@ KWS = [{}, {"engine": "normal"}, {"mnemonic_case": "preserve"}, {"null_policy": 
        {"null_policy": "aggressive"}, {"accept_regexp_sub_recommendations": False}, {"use_normal_engine_for_wrapped": False}]
 LATIN = ["Åsgard Ølje", "Société Générale", "Müller & Söhne", "Peña Nieto S.A.", "£ ± µ ¿ ß"]
 WIDE = ["Нефть и газ", "井戸 検層", "𝒲ell 𝓛og 😀", "Ελληνικά", "Łódź Żółć", "para\u2028graph sep", "line\u2029sep"]
-ODDSEP = ["next\x85line", "form\x0cfeed", "vt\x0btab", "fs\x1cgs\x1drs\x1e", "nbsp\xa0here", "soft\xadhyphen"]   # str.splitlines() boundaries
+ODDSEP = ["next\x85line", "form\x0cfeed", "vt\x0btab", "fs\x1cgs\x1drs\x1eus", "nbsp\xa0here", "soft\xadhyphen"]   # str.splitlines() boundaries
+# characters for which str.isprintable() / isspace() / category tests answer unusually (always between two letters of a field)
+INVISIBLE = ["Soci\xe9t\xe9\xa0P\xe9troli\xe8re", "co\xadop\xe9rative", "zero\u200cwidth\u200djoiner", "thin\u2009space", "ideo\u3000space",
+             "mark\u200eltr\u200frtl", "private\ue000use", "bom\ufeffinside", "comb\u0301ining"]
 MUTATIONS = ["well_value", "well_append", "well_delete", "version_value", "curve_inplace", "curve_append", "rename_item",
              "params_append", "other_text", "curve_delete"]
 
@@ -32,17 +35,22 @@ def make_doc(g, kind):
     """-> {"lines": [...], "wide": bool}"""
     if kind == "nonascii":
         wide = g.random() < 0.4
-        pool = WIDE if wide else (LATIN + ODDSEP if g.random() < 0.5 else LATIN)
+        pool = WIDE + INVISIBLE[2:] if wide else (LATIN + ODDSEP + INVISIBLE[:2] if g.random() < 0.5 else LATIN)
         doc = docmodel.std_doc(g, custom=g.choice([0, 1]))
+        expect = []
         for sec in doc["sections"]:
             if sec["kind"] == "W":
-                sec["items"].append(["COMP2", "", g.choice(pool), "company " + g.choice(pool)])
-                sec["items"].append(["LOC", "", g.choice(pool), "LOCATION"])
+                a, b, c = g.choice(pool), g.choice(pool), g.choice(pool)
+                sec["items"].append(["COMP2", "", a, "company " + b])
+                sec["items"].append(["LOC", "", c, "LOCATION"])
+                expect += [["Well", "COMP2", "value", a], ["Well", "COMP2", "descr", "company " + b], ["Well", "LOC", "value", c]]
             if sec["kind"] == "O":
                 sec["text"].append("free text " + g.choice(pool))
             if sec["kind"] == "P":
-                sec["items"].append(["ENG", "", g.choice(pool), "ENGINEER"])
-        return {"lines": docmodel.render_doc(doc), "wide": wide}
+                a = g.choice(pool)
+                sec["items"].append(["ENG", "", a, "ENGINEER"])
+                expect.append(["Parameter", "ENG", "value", a])
+        return {"lines": docmodel.render_doc(doc), "wide": wide, "expect": expect}
     if kind == "nosections":
         doc = docmodel.std_doc(g, with_p=False, with_o=False)
         drop = g.choice([["W"], ["V"], ["V", "W"], ["C"], []])
@@ -143,6 +151,10 @@ class C10(Prop):
         g = st.gen
         kinds = ["nonascii", "nosections", "hyphen", "runon", "plain", "comma_dlm", "comma_decimal", "tab_dlm"]
         docs = [make_doc(g, k) for k in g.sample(kinds, g.randint(3, 6))]
+        for d in docs:
+            if g.random() < 0.06 and d["lines"] and d["lines"][0].startswith("~"):
+                # a very long first line (titles may carry free text): still LAS data, never a file name
+                d["lines"][0] = d["lines"][0] + " " + "-" * g.choice([300, 4000, 4096, 5000, 70000])
         nclients = g.choice([1, 2, 2, 3])
         clients = []
         for c in range(nclients):
@@ -221,6 +233,16 @@ class C10(Prop):
                         try:
                             las = lasio.read(io.StringIO(docs[op[1]]), **KWS[op[3]])
                             refs[(op[1], op[3])] = ("ok", canon_result(las))
+                            # ground truth for the header text: what the document says, character by character
+                            for secname, mn, field, text in sc["docs"][op[1]].get("expect") or []:
+                                its = [it for it in las.sections[secname] if it.original_mnemonic.upper() == mn]
+                                if not its:
+                                    continue
+                                got = getattr(its[0], field)
+                                res.count("header-text-checked")
+                                if got != text:
+                                    res.violate("C10.header-text", "~%s item %s %s is %r in the document but %r after read(%r)" % (
+                                        secname, mn, field, text, got, KWS[op[3]]))
                         except Exception as e:
                             refs[(op[1], op[3])] = ("raised", type(e).__name__)
 
